@@ -11,6 +11,15 @@ keeps the proofs, a semantic change breaks them.
 -/
 namespace Dora.A64
 
+/-- Arm ARM, "ADD (extended register)" and friends: the 3-bit `option` field. `LSL` is the preferred spelling of
+UXTX in the 64-bit form (sf = 1) and of UXTW in the 32-bit form (sf = 0). Hand-written specification, used by the
+generated theorem of class `addsub_extreg`. -/
+def extendOptionSpec (e : Extend) (sf : BitVec 32) : BitVec 3 :=
+  match e with
+  | .UXTB => 0#3 | .UXTH => 1#3 | .UXTW => 2#3 | .UXTX => 3#3
+  | .SXTB => 4#3 | .SXTH => 5#3 | .SXTW => 6#3 | .SXTX => 7#3
+  | .LSL => if sf = 0#32 then 2#3 else 3#3
+
 theorem bind_ok {α β : Type} (x : Except String α) (f : α → Except String β) (b : β) :
     (x >>= f) = .ok b ↔ ∃ a, x = .ok a ∧ f a = .ok b := by
   cases x <;> simp [bind, Except.bind]
